@@ -84,6 +84,9 @@ pub fn run_case(line: &str) -> String {
     match w[0] {
         "pq" => run_pq(&w[1..]),
         "ipq" => run_ipq(&w[1..]),
+        "sl" => crate::slscen::run(&w[1..]),
+        "q" => crate::channel::qscen::run_seq(&w[1..]),
+        "qc" => crate::channel::qscen::run_conc(&w[1..]),
         k => format!("ERR unknown-kind {}", k),
     }
 }
